@@ -438,6 +438,7 @@ func (t *T) genGobW() string {
 	sb.WriteString(t.genGobLeafLayouts())
 	sb.WriteString(t.genGobCodecs(true))
 	sb.WriteString(t.genGobEncItem())
+	sb.WriteString(t.genGobWrappers(true))
 	sb.WriteString(t.gobMethods("GobEncode", "gob_enc_methods"))
 	sb.WriteString(t.gobAliases("MarshalBinary", "gob_marshal_binary"))
 	return sb.String()
@@ -569,6 +570,7 @@ func (t *T) genGobR() string {
 	sb.WriteString(t.genGobSniff())
 	sb.WriteString(t.genGobCodecs(false))
 	sb.WriteString(t.genGobTyperPresets())
+	sb.WriteString(t.genGobWrappers(false))
 	sb.WriteString(t.gobMethods("GobDecode", "gob_dec_methods"))
 	sb.WriteString(t.gobAliases("UnmarshalBinary", "gob_unmarshal_binary"))
 	return sb.String()
@@ -993,21 +995,22 @@ func (c gobCodecFn) key() string {
 }
 
 var (
-	reLwRetEmpty1 = regexp.MustCompile(`^if len\((\w+)\) == 0 \{ return \[\]byte\{\}, nil \}$`)
-	reLwRetEmpty2 = regexp.MustCompile(`^if len\((\w+)\.(\w+)\) == 0 && len\((\w+)\.(\w+)\) == 0 \{ return \[\]byte\{\}, nil \}$`)
-	reLwRetRaw    = regexp.MustCompile(`^return \[\]byte\((\w+)\), nil$`)
-	reLwBufVal    = regexp.MustCompile(`^(\w+) := bytes\.Buffer\{\}$`)
-	reLwBufPtr    = regexp.MustCompile(`^(\w+) := new\(bytes\.Buffer\)$`)
-	reLwEncoder   = regexp.MustCompile(`^(\w+) := gob\.NewEncoder\((&?)(\w+)\)$`)
-	reLwMkKvs1    = regexp.MustCompile(`^(\w+) := make\(\[\]kv, len\((\w+)\)\)$`)
-	reLwMkKvs2    = regexp.MustCompile(`^for (\w+), (\w+) := range (\w+) \{ (\w+)\[(\w+)\] = kv\{K: \[\]byte\((\w+)\.(\w+)\), V: (\w+)\.(\w+)\} \}$`)
-	reLwMkKv      = regexp.MustCompile(`^(\w+) := kv\{ ?K: \[\]byte\((\w+)\.(\w+)\), V: \[\]byte\((\w+)\.(\w+)\),? ?\}$`)
-	reLwMkBl1     = regexp.MustCompile(`^(\w+) := make\(\[\]\[\]byte, 0\)$`)
-	reLwMkBl2     = regexp.MustCompile(`^for _, (\w+) := range (\w+) \{ (\w+) = append\((\w+), \[\]byte\((\w+)\)\) \}$`)
-	reLwEncode    = regexp.MustCompile(`^if err := (\w+)\.Encode\((\w+)\); err != nil \{ return nil, err \}$`)
-	reLwEncodeVia = regexp.MustCompile(`^if err := (\w+)\((\w+), (?:\[\]byte\((\w+)\)|(\w+))\); err != nil \{ return nil, err \}$`)
-	reLwRetBuf    = regexp.MustCompile(`^return (\w+)\.Bytes\(\), nil$`)
-	reLwHelperEnc = regexp.MustCompile(`^if err := (\w+)\.Encode\((\w+)\); err != nil \{ return err \}$`)
+	reLwRetEmpty1  = regexp.MustCompile(`^if len\((\w+)\) == 0 \{ return \[\]byte\{\}, nil \}$`)
+	reLwRetEmpty2  = regexp.MustCompile(`^if len\((\w+)\.(\w+)\) == 0 && len\((\w+)\.(\w+)\) == 0 \{ return \[\]byte\{\}, nil \}$`)
+	reLwRetRaw     = regexp.MustCompile(`^return \[\]byte\((\w+)\), nil$`)
+	reLwBufVal     = regexp.MustCompile(`^(\w+) := bytes\.Buffer\{\}$`)
+	reLwBufPtr     = regexp.MustCompile(`^(\w+) := new\(bytes\.Buffer\)$`)
+	reLwEncoder    = regexp.MustCompile(`^(\w+) := gob\.NewEncoder\((&?)(\w+)\)$`)
+	reLwMkKvs1     = regexp.MustCompile(`^(\w+) := make\(\[\]kv, len\((\w+)\)\)$`)
+	reLwMkKvs2     = regexp.MustCompile(`^for (\w+), (\w+) := range (\w+) \{ (\w+)\[(\w+)\] = kv\{K: \[\]byte\((\w+)\.(\w+)\), V: (\w+)\.(\w+)\} \}$`)
+	reLwMkKv       = regexp.MustCompile(`^(\w+) := kv\{ ?K: \[\]byte\((\w+)\.(\w+)\), V: \[\]byte\((\w+)\.(\w+)\),? ?\}$`)
+	reLwMkBl1      = regexp.MustCompile(`^(\w+) := make\(\[\]\[\]byte, 0\)$`)
+	reLwMkBl2      = regexp.MustCompile(`^for _, (\w+) := range (\w+) \{ (\w+) = append\((\w+), \[\]byte\((\w+)\)\) \}$`)
+	reLwEncode     = regexp.MustCompile(`^if err := (\w+)\.Encode\((\w+)\); err != nil \{ return nil, err \}$`)
+	reLwEncodeConv = regexp.MustCompile(`^if err := (\w+)\.Encode\((\w+)\((\w+)\)\); err != nil \{ return nil, err \}$`)
+	reLwEncodeVia  = regexp.MustCompile(`^if err := (\w+)\((\w+), (?:\[\]byte\((\w+)\)|(\w+))\); err != nil \{ return nil, err \}$`)
+	reLwRetBuf     = regexp.MustCompile(`^return (\w+)\.Bytes\(\), nil$`)
+	reLwHelperEnc  = regexp.MustCompile(`^if err := (\w+)\.Encode\((\w+)\); err != nil \{ return err \}$`)
 )
 
 func gobParams(fd *ast.FuncDecl) []string {
@@ -1119,6 +1122,11 @@ func (t *T) gobLeafWriteRows(fd *ast.FuncDecl, isHelperEnc bool) []string {
 				rows = append(rows, fmt.Sprintf("LwEncode %s %s %s", coqStr("Encode"), coqStr(src), pos))
 				continue
 			}
+		}
+		// gg.Encode(T(x)): a conversion of the value on its way into the stream (builder b50): src = "T(recv)"
+		if m := reLwEncodeConv.FindStringSubmatch(txt); m != nil && m[1] == enc && enc != "" && m[3] == x {
+			rows = append(rows, fmt.Sprintf("LwEncode %s %s %s", coqStr("Encode"), coqStr(m[2]+"(recv)"), pos))
+			continue
 		}
 		if m := reLwEncodeVia.FindStringSubmatch(txt); m != nil && m[2] == enc && enc != "" && (m[3] == x || m[4] == x) {
 			rows = append(rows, fmt.Sprintf("LwEncode %s %s %s", coqStr(m[1]), coqStr("recv"), pos))
